@@ -16,7 +16,7 @@ INNER = "for anchor in anchors"
 MKPOS = "pos = MarkToMarkPos(glyphName, [anchor])"
 PUT = "results.setdefault(anchor.key, []).append(pos)"
 RES = Dict(STR, List(MARK2MARK))
-COMMON = dict(props=["C06"], params={"self": Ref("C06_Writer")}, returns=RES, merge_branches=False)
+COMMON = dict(props=["C06"], params={"self": Ref("C06_Writer")}, returns=RES, merge_branches=False, dict_key_positions=False)
 LOCALS = {"results": RES, "r0": RES}
 _RT = Runtime(c06rt.stage_cases, lambda d: {"self": c06rt.writer_at(d, "assigned")}, call=lambda fn, a: fn(a["self"]))
 
@@ -86,6 +86,7 @@ contract(
             # every attachment filed before is still at its place (whatever its key)
             "all(n in results and len(r0[n]) <= len(results[n]) and all(results[n][k] == r0[n][k] for k in range(len(r0[n]))) for n in r0)",
             _listed("results", "glyphName", "anchor"),
+            "all(implies(" + _mk_anchor("anchors[b]") + ", " + _listed("results", "glyphName", "anchors[b]") + ") for b in range(j))",
         ],
     },
     loops={
